@@ -517,7 +517,7 @@ pub fn ctor_checks<const N: usize>(prop: &str, rep: &mut Report) {
     for m in 0..=(2 * N + 1).min(MAX_FROM_ARRAY) {
         ctors.push(Ctor::FromArray(m));
         ctors.push(Ctor::FromIter(m));
-        for h in 0..4 {
+        for h in 0..5 {
             ctors.push(Ctor::FromIterHint(m, h));
         }
     }
